@@ -490,10 +490,11 @@ func item(c cfg, oracle string) *explore.Item {
 
 func c02configs(tier string) []cfg {
 	var out []cfg
-	qs := []string{"flag", "items", "thing", "maybe"}
+	qs := []string{"flag", "items", "thing", "maybe", "blobs"}
 	envFor := map[string][]string{
 		"flag":  {"flag++"},
 		"items": {"reorder", "insert", "delete", "edit", "clear"},
+		"blobs": {"reorder", "insert", "edit"},
 		"thing": {"union-switch", "union-null", "union-plain"},
 		"maybe": {"maybe-toggle", "flag++"},
 	}
